@@ -376,7 +376,22 @@ def gen_desc(rng, max_nodes=8):
     d = gen_ts.random_desc(rng, max_nodes=max_nodes, migrations=False)
     if rng.random() < 0.5:
         d = scramble_individuals(d, rng)
+    if rng.random() < 0.3:          # application-defined flag bits next to the sample bit
+        d = dict(d)
+        d["nodes"] = [[nd[0] | rng.choice([0, 1 << 16, 1 << 19, (1 << 31) | (1 << 7)]), nd[1], nd[2], nd[3], nd[4]]
+                      for nd in d["nodes"]]
     return d
+
+
+def big_star_desc(rng, k):
+    """k >= 256 children under one root (8-bit counters), two populations, one individual each 3 nodes."""
+    nodes = [[1, 0, u % 2, (u // 3) if u % 5 else NULL, gen_ts.hx(rng)] for u in range(k)] + [[0, 1, 0, NULL, ""]]
+    edges = [[0, 2, k, u, gen_ts.hx(rng)] for u in range(k)]
+    sites = [[1, "A", ""]]
+    muts = [[0, u, "T", NULL, None, ""] for u in range(0, k, 37)]
+    inds = [[0, [], [], gen_ts.hx(rng)] for _ in range(k // 3 + 1)]
+    return {"L": 2, "scale": 1, "nodes": nodes, "edges": edges, "sites": sites, "mutations": muts,
+            "individuals": inds, "populations": [["01"], ["02"]], "migrations": []}
 
 
 def time_consistent_individuals(desc, rng):
@@ -595,6 +610,12 @@ class Subset(Family):
                             for ru in (True, False):
                                 yield {"desc": d, "nodes": list(nodes), "rp": rp, "ru": ru,
                                        "form": rng.choice(FORMS)}
+        for k in ((300,) if not big else (300, 257, 700)):
+            d = big_star_desc(rng, k)
+            for nodes in (list(range(k + 1)), list(range(k, -1, -1)), list(range(0, k + 1, 2)) + [k],
+                          rng.sample(range(k + 1), 260)):
+                yield {"desc": d, "nodes": nodes, "rp": rng.random() < 0.5, "ru": rng.random() < 0.5,
+                       "form": rng.choice(["int32", "strided", "col2d", "reversed", "int64", "list"])}
         for _ in range(500 if not big else 6000):
             d = gen_desc(rng, max_nodes=rng.choice([4, 6, 8, 8, 12]))
             n = len(d["nodes"])
@@ -1186,6 +1207,23 @@ class Malformed(Family):
             obs["result"] = "accepted"
         except Exception as e:
             obs["result"] = exc(e)
+        # error, then reuse of the SAME tree sequence object: must behave like a fresh one
+        if obs["nmig"] == 0 and case["kind"] in ("subset-oob", "union-badmap"):
+            try:
+                ts = tc.tree_sequence()
+                good = list(range(ts.num_nodes))[::-1]
+                fresh = dump(tc.tree_sequence().subset(good).dump_tables(), scale)
+                try:
+                    if case["kind"] == "subset-oob":
+                        ts.subset(case["nodes"])
+                    else:
+                        ts.union(ts, case["mapping"], check_shared_equality=case["check"])
+                except Exception:
+                    pass
+                obs["reuse_same"] = dump(ts.subset(good).dump_tables(), scale) == fresh
+                obs["ts_unchanged"] = bool(ts.dump_tables().equals(tc, ignore_provenance=True))
+            except Exception as e:
+                obs["reuse_same"] = "error: %s" % type(e).__name__
         return obs
 
     def expected_error(self, case, obs):
@@ -1202,9 +1240,14 @@ class Malformed(Family):
         return False
 
     def oracle(self, case, obs):
+        fails = []
         if self.expected_error(case, obs) and obs["result"] == "accepted":
-            return [("malformed-accepted-" + case["kind"], "%r accepted" % (case["nodes"] if "subset" in case["kind"] else case["mapping"],))]
-        return []
+            fails.append(("malformed-accepted-" + case["kind"], "%r accepted" % (case["nodes"] if "subset" in case["kind"] else case["mapping"],)))
+        if obs.get("reuse_same", True) is not True:
+            fails.append(("reuse-after-error-differs", repr(obs.get("reuse_same"))))
+        if obs.get("ts_unchanged", True) is not True:
+            fails.append(("tree-sequence-changed-by-failed-call", case["kind"]))
+        return fails
 
     def coq_check(self, case, obs):
         I = obs["input"]
@@ -1416,7 +1459,141 @@ class Integrity(Family):
                 "result": obs["result"].get("code", "ok") if "error" in obs["result"] else "ok"}
 
 
-FAMILIES = [Subset, Union, Inverse, Malformed, Integrity]
+# ---------------------------------------------------------------------------------------
+# Family: union_attrs  (collection-level attributes in the shared-portion check; no shared nodes)
+# ---------------------------------------------------------------------------------------
+
+ATTR_COMPARED = ("time_units", "L-bigger", "schema-nodes", "schema-edges", "schema-sites",
+                 "schema-mutations", "schema-individuals", "schema-populations", "schema-migrations")
+ATTR_IGNORED = ("schema-top", "metadata-top", "refseq")
+TABLE_NAMES = ("nodes", "edges", "sites", "mutations", "individuals", "populations", "migrations")
+
+
+def set_attr(tc, kind):
+    """`other` differing from self in one collection-level attribute."""
+    import tskit
+    js = tskit.MetadataSchema({"codec": "json"})
+    if kind == "none":
+        return tc
+    if kind == "time_units":
+        tc.time_units = "years"
+    elif kind == "L-bigger":
+        d = tc.asdict()
+        d["sequence_length"] = tc.sequence_length * 3
+        tc = tskit.TableCollection.fromdict(d)
+    elif kind.startswith("schema-") and kind != "schema-top":
+        getattr(tc, kind[7:]).metadata_schema = js
+    elif kind == "schema-top":
+        tc.metadata_schema = js
+    elif kind == "metadata-top":
+        tc.metadata_schema = js
+        tc.metadata = {"a": 1}
+    elif kind == "refseq":
+        tc.reference_sequence.data = "ACGT"
+    return tc
+
+
+def attrs_of(tc, scale):
+    return [[_coord(tc.sequence_length, scale)], list(tc.time_units.encode())] + [
+        list(repr(getattr(tc, n).metadata_schema).encode()) for n in TABLE_NAMES]
+
+
+def cattrs(a):
+    return "[" + ";".join(czl(x) for x in a) + "]"
+
+
+class UnionAttrs(Family):
+    name = "union_attrs"
+    prelude = PRELUDE
+    workers = 6
+    shard = 150
+
+    def generate(self, rng, tier):
+        kinds = ("none",) + ATTR_COMPARED + ATTR_IGNORED
+        for _ in range(260 if tier == "quick" else 2600):
+            d = gen_desc(rng, max_nodes=rng.choice([3, 5, 7]))
+            times = sorted({nd[1] for nd in d["nodes"]}) or [0]
+            yield {"desc": d, "shared": rng.choice(["none", "none", "cover"]), "kind": rng.choice(kinds),
+                   "cut": rng.choice(times[1:] or times), "seed": rng.randrange(1 << 30),
+                   "check": rng.random() < 0.75, "add_pops": rng.random() < 0.5, "form": rng.choice(FORMS)}
+
+    def observe(self, case):
+        d = case["desc"]
+        scale = d.get("scale", 1)
+        T = desc_tables(d)
+        rng = random.Random(case["seed"])
+        n = len(T["nodes"])
+        if case["shared"] == "cover":
+            A, B = cover_of(T, rng, case["cut"])
+            mapping = mapping_of(A, B)
+        else:                                   # a disjoint union: nothing shared
+            A = list(range(n))
+            B = rng.sample(range(n), rng.randrange(0, n + 1)) if n else []
+            mapping = [NULL] * len(B)
+        S, O = ref_subset(T, A), ref_subset(T, B)
+        s, o = undump(S, scale), undump(O, scale)
+        s.sort()
+        o.sort()
+        obs = {"S": dump(s, scale), "O": dump(o, scale), "mapping": mapping, "a_self": attrs_of(s, scale)}
+        o2 = set_attr(o.copy(), case["kind"])
+        obs["a_other"] = attrs_of(o2, scale)
+        marg = lambda: as_form(mapping, case.get("form", "list"), int(s.nodes.num_rows))
+        for api, other in (("plain", o), ("tc", o2), ("ts", o2)):
+            try:
+                if api == "ts":
+                    t = s.tree_sequence().union(other.tree_sequence(), marg(), check_shared_equality=case["check"],
+                                                add_populations=case["add_pops"]).dump_tables()
+                else:
+                    t = s.copy()
+                    before = t.copy()
+                    try:
+                        t.union(other, marg(), check_shared_equality=case["check"],
+                                add_populations=case["add_pops"], record_provenance=False)
+                    finally:
+                        obs[api + "_self_unchanged"] = bool(t.equals(before))
+                obs[api] = dump(t, scale)
+            except Exception as e:
+                obs[api] = exc(e)
+        return obs
+
+    def oracle(self, case, obs):
+        fails = []
+        kind = case["kind"]
+        if case["check"] and kind in ATTR_COMPARED:
+            # "refuses when the shared parts differ": the two collections are not descriptions of one
+            # shared history when they disagree on the genome length, the time unit or a table schema
+            for api in ("tc", "ts"):
+                if obs[api].get("code") != "TSK_ERR_UNION_DIFF_HISTORIES":
+                    fails.append(("differing-%s-not-refused-%s" % (kind.split("-")[0], api),
+                                  "%s: %r" % (kind, obs[api] if "error" in obs[api] else "accepted")))
+            if not obs.get("tc_self_unchanged", True):
+                fails.append(("refused-union-modified-self", kind))
+        elif kind in ATTR_IGNORED or kind == "none":
+            for api in ("tc", "ts"):
+                if obs[api] != obs["plain"]:
+                    fails.append(("attribute-%s-changes-union-%s" % (kind, api), "differs from the union with the unmodified other"))
+        if "error" in obs["plain"] and obs["plain"].get("code") == "TSK_ERR_UNION_DIFF_HISTORIES":
+            fails.append(("valid-union-refused", repr(obs["plain"])))
+        return fails
+
+    def coq_check(self, case, obs):
+        call = "union_with_attrs %s %s %s %s %s %s %s" % (
+            cattrs(obs["a_self"]), cattrs(obs["a_other"]), coq_tables(obs["S"]), coq_tables(obs["O"]),
+            czl(obs["mapping"]), "true" if case["check"] else "false", "true" if case["add_pops"] else "false")
+        got = obs["tc"]
+        if "error" in got:
+            return coq_expect_error(call, got)
+        return "res_tables_eqb (%s) %s" % (call, coq_tables(got))
+
+    def nontrivial(self, case, obs):
+        return case["kind"] != "none"
+
+    def describe(self, case, obs):
+        return {"kind": case["kind"], "shared": case["shared"], "check": case["check"], "form": case.get("form"),
+                "result": obs["tc"].get("code", "error") if "error" in obs["tc"] else "ok"}
+
+
+FAMILIES = [Subset, Union, Inverse, Malformed, Integrity, UnionAttrs]
 
 NOT_COVERED = [
     "migrations (subset/union refuse any table collection with migrations)",
